@@ -360,6 +360,31 @@ def deep_defs(ctx, f: FuncInfo, e: ast.AST, depth: int = 2) -> list[tuple[FuncIn
     return out
 
 
+def stored_value(f: FuncInfo, target: str) -> ast.expr | None:
+    """The value stored to `target` (dotted text, e.g. 'self.store_result') in f as ONE expression: the assigned value when there is a single
+    store, or the equivalent conditional expression when the two arms of one if/else each store it once (`x = a if c else b` <-> if c: x = a else: x = b)."""
+    def stores_in(stmts):
+        return [n for st in stmts for n in ast.walk(st) if isinstance(n, (ast.Assign, ast.AnnAssign)) and n.value is not None
+                and any(dotted(t) == target for t in (n.targets if isinstance(n, ast.Assign) else [n.target]))]
+
+    all_st = stores_in(f.node.body)
+    if len(all_st) == 1:
+        return all_st[0].value
+    if len(all_st) == 2:
+        for i in ast.walk(f.node):
+            if isinstance(i, ast.If) and i.orelse:
+                a, b = stores_in(i.body), stores_in(i.orelse)
+                if len(a) == 1 and len(b) == 1 and a[0] in i.body and b[0] in i.orelse:
+                    return ast.copy_location(ast.IfExp(test=i.test, body=a[0].value, orelse=b[0].value), i)
+        # default first, then conditionally overwritten:  x = d; if c: x = v   ==  v if c else d
+        first, second = all_st
+        for i in ast.walk(f.node):
+            if isinstance(i, ast.If) and not i.orelse and second in i.body and first in f.node.body and f.node.body.index(first) < next(
+                    (k for k, st in enumerate(f.node.body) if any(x is i for x in ast.walk(st))), -1):
+                return ast.copy_location(ast.IfExp(test=i.test, body=second.value, orelse=first.value), i)
+    return None
+
+
 def call_as_expr(ctx, f: FuncInfo, e: ast.AST | None, depth: int = 2) -> ast.AST | None:
     """If e is a call of a small pure helper (one resolvable callee whose body is a chain of `if T: return A` ending in `return B`), the
     equivalent conditional expression in the caller's terms (parameters substituted); otherwise e itself. 'Extract function' tolerant."""
